@@ -33,7 +33,7 @@ def gen_cases(tier, seed):
     hist = []
     for n in range(1, L + 1):
         hist.extend(list(h) for h in itertools.product(ALPHA, repeat=n))
-    for _ in range(100 if tier == "quick" else 2000):
+    for _ in range(100 if tier == "quick" else 20000):
         n = int(rng.integers(6, 31))
         hist.append([str(rng.choice(ALPHA, p=[0.15, 0.15, 0.35, 0.2, 0.15])) for _ in range(n)])
     cases = []
